@@ -115,7 +115,7 @@ static void one_op(void) {
       if (inv) lp_value_inv(&r, A2); else lp_value_neg(&r, A2);
       sb_sp(); sb_val(&r); sb_emit(); }
   } else if (op < 68) {
-    unsigned n = 1 + rnd(4);
+    unsigned n = rnd(5);        /* 0 included: x^0 = 1 in every representation */
     if (alg_degree(a) > 3) goto done;
     { unsigned dk = rnd(3); char nm[16]; const lp_value_t* A2 = a;
       if (dk == 1) { lp_value_destruct(&r); lp_value_construct_copy(&r, &pool[rnd(npool)]); }
